@@ -19,11 +19,21 @@ from ..core import norm
 from ..shape import tri, walk_paths
 
 
-def check_merge(fn: ast.AST, store: str = "orbits", index_map: str = "orbit_map") -> List[Tuple[Optional[bool], str, dict]]:
+def check_merge(fn: ast.AST, store: Optional[str] = None, index_map: Optional[str] = None) -> List[Tuple[Optional[bool], str, dict]]:
     a = [x.arg for x in fn.args.args]
     if len(a) != 2:
         return [(None, "merge helper does not take two slot indices", {})]
     I, J = a
+    # the slot list is the name that is subscripted by the two parameters; the index map the one subscript-assigned in a loop
+    if store is None:
+        cands = [n.value.id for n in ast.walk(fn) if isinstance(n, ast.Subscript) and isinstance(n.value, ast.Name)
+                 and isinstance(n.slice, ast.Name) and n.slice.id in (I, J) and isinstance(n.ctx, ast.Load)]
+        store = max(set(cands), key=cands.count) if cands else "orbits"
+    if index_map is None:
+        cands = [st.targets[0].value.id for l in ast.walk(fn) if isinstance(l, ast.For) for st in l.body
+                 if isinstance(st, ast.Assign) and isinstance(st.targets[0], ast.Subscript) and isinstance(st.targets[0].value, ast.Name)
+                 and st.targets[0].value.id != store]
+        index_map = cands[0] if cands else "orbit_map"
     tests = []
     for n in ast.walk(fn):
         if isinstance(n, (ast.If, ast.IfExp)):
